@@ -90,6 +90,33 @@ fn gen(a: &Args) {
             }
         }
     });
+    // (2b) slice_ref with a sub-string taken from ANOTHER view of the same buffer: parent, both halves of every
+    // split, every sub-slice of the parent against each of them; and against an equal string in a different buffer
+    let mut n = 0;
+    all_strings(l2, |s| {
+        if std::str::from_utf8(s).is_ok() && !s.is_empty() {
+            for mid in 0..=s.len() {
+                if !std::str::from_utf8(s).unwrap().is_char_boundary(mid) {
+                    continue;
+                }
+                n += 1;
+                writeln!(w, "case xslice-{n}").unwrap();
+                writeln!(w, "tryfrom {}", hex(s)).unwrap(); // 0: parent
+                writeln!(w, "split 0 {mid}").unwrap(); // 1, 2: halves
+                writeln!(w, "tryfrom {}", hex(s)).unwrap(); // 3: equal bytes, different buffer
+                for r in 0..4 {
+                    for i in 0..=s.len() {
+                        for j in i..=s.len() + 1 {
+                            writeln!(w, "xslice {r} 0 {i} {j}").unwrap();
+                        }
+                    }
+                }
+                writeln!(w, "xslice 0 1 0 {mid}").unwrap();
+                writeln!(w, "xslice 0 2 0 {}", s.len() - mid).unwrap();
+                writeln!(w, "xslice 1 2 0 {}", s.len() - mid).unwrap();
+            }
+        }
+    });
     // (3) random histories of the whole safe API
     let mut rng = Rng::new(a.seed);
     let cases = if thorough { 20000 } else { 2000 };
@@ -98,7 +125,7 @@ fn gen(a: &Args) {
         let mut size = 0usize; // lower bound on the store size is not tracked: bad-op is identical on both sides
         for _ in 0..rng.range(3, 14) {
             let k = rng.below(size.max(1) + 1);
-            match rng.below(8) {
+            match rng.below(9) {
                 0 | 1 => {
                     writeln!(w, "tryfrom {}", hex(&random_bytes(&mut rng))).unwrap();
                     size += 1
@@ -119,6 +146,10 @@ fn gen(a: &Args) {
                     size += 1
                 }
                 6 => writeln!(w, "cmp {k} {}", rng.below(size.max(1) + 1)).unwrap(),
+                7 if rng.chance(1, 2) => {
+                    writeln!(w, "xslice {k} {} {} {}", rng.below(size.max(1) + 1), rng.below(8), rng.below(12)).unwrap();
+                    size += 1
+                }
                 _ => writeln!(w, "get {k}").unwrap(),
             }
         }
@@ -270,6 +301,44 @@ fn run(a: &Args) {
                             o
                         }
                         Err(_) => "panic".into(),
+                    }
+                }
+                _ => "bad-op".into(),
+            },
+            ["xslice", r, k, i, j] => match (r.parse::<usize>(), k.parse::<usize>(), i.parse::<usize>(), j.parse::<usize>()) {
+                // `st[r].slice_ref(&st[k][i..j])`: the subset comes from another value (another view of the same
+                // buffer, or a different buffer altogether)
+                (Ok(r), Ok(k), Ok(i), Ok(j)) if r < st.len() && k < st.len() => {
+                    let recv = st[r].clone();
+                    let src = st[k].clone();
+                    match catch(|| src[i..j].to_string()) {
+                        Err(_) => "panic".into(), // not a sub-string of the source at all
+                        Ok(want) => {
+                            let sub: &str = &src[i..j];
+                            // reference: is `sub` inside the receiver's memory? (addresses only, no call of the code under test)
+                            let (rp, rl) = (recv.as_ptr() as usize, recv.len());
+                            let (sp, sl) = (sub.as_ptr() as usize, sub.len());
+                            let inside = sl == 0 || (sp >= rp && sp + sl <= rp + rl);
+                            match catch(|| recv.slice_ref(sub)) {
+                                Ok(x) => {
+                                    check_valid(&x, &mut rep, "slice_ref");
+                                    if *x != *want {
+                                        rep.t3("C20", &format!("slice_ref returned {} for the sub-string {} (receiver {})", hex(x.as_bytes()), hex(want.as_bytes()), hex(recv.as_bytes())));
+                                    } else if !inside {
+                                        rep.t3("C20", &format!("slice_ref accepted {} which is not a sub-slice of the receiver {}", hex(want.as_bytes()), hex(recv.as_bytes())));
+                                    }
+                                    let o = format!("ok {}", hex(x.as_bytes()));
+                                    st.push(x);
+                                    o
+                                }
+                                Err(_) => {
+                                    if inside {
+                                        rep.t3("C20", &format!("slice_ref panicked on {} which is a sub-slice of the receiver {}", hex(want.as_bytes()), hex(recv.as_bytes())));
+                                    }
+                                    "panic".into()
+                                }
+                            }
+                        }
                     }
                 }
                 _ => "bad-op".into(),
